@@ -54,12 +54,67 @@ def oracle(k, w):
     return None
 
 
+def ovf_pin_stress(ck, n):
+    """Directed stream: ONE operand of a multi-input gate carries the overflow mark (it is the output of a parity stage with capacity 4 fed
+    by four staggered transitions) while the other operands are short waveforms of different lengths; every pin position and every
+    4-/3-input kind in turn.  The gate's own capacity is large, so its mark can only come from the marked operand."""
+    import random
+    from kyupy.circuit import Circuit, Node, Line
+    rng = random.Random(ck.seed * 7919 + 1313)
+    kinds = [('AND4', 4), ('NAND4', 4), ('OR4', 4), ('NOR4', 4), ('XOR4', 4), ('AO22', 4), ('OA22', 4), ('AO211', 4), ('and', 4), ('xnor', 4),
+             ('AND3', 3), ('or3', 3), ('AO21', 3), ('MUX21', 3), ('XOR2', 2)]
+    fails = []
+    pairs = [(kind, ar, pin) for kind, ar in kinds for pin in range(ar)]
+    for i in range(n):
+        kind, ar, pin = pairs[i % len(pairs)]
+        c = Circuit('ovf')
+        pis = []
+        for nm in ('p', 'q', 'r', 's', 'a', 'b', 'c'):
+            pi = Node(c, nm, 'input'); c.io_nodes.append(pi); pis.append(pi)
+        x1, x2, x = Node(c, 'x1', 'XOR2'), Node(c, 'x2', 'XOR2'), Node(c, 'x', 'XOR2')
+        Line(c, pis[0], (x1, 0)); Line(c, pis[1], (x1, 1)); Line(c, pis[2], (x2, 0)); Line(c, pis[3], (x2, 1))
+        Line(c, x1, (x, 0)); Line(c, x2, (x, 1))
+        g = Node(c, 'g', kind)
+        xl = Line(c, x, (g, pin))
+        side = iter(pis[4:])
+        for p_ in range(ar):
+            if p_ != pin:
+                Line(c, next(side), (g, p_))
+        po = Node(c, 'z', 'output'); c.io_nodes.append(po)
+        Line(c, g, po)
+        k = wk.Case()
+        k.c, k.reuse, k.strip, k.sims, k.tcap, k.a_ctrl = c, rng.random() < 0.3, False, 6, rng.choice([None, 25, 33]), None
+        k.caps = [16] * len(c.lines)
+        k.caps[xl.index] = 4
+        k.delays, k.style = wc.gen_delays(rng, len(c.lines), rng.choice(['uniform', 'polfree', 'zero']))
+        slen = len(c.s_nodes)
+        k.s0 = np.array([[rng.randint(0, 1) for _ in range(k.sims)] for _ in range(slen)], dtype=np.float32)
+        k.s2 = np.array([[rng.randint(0, 1) for _ in range(k.sims)] for _ in range(slen)], dtype=np.float32)
+        k.s1 = np.array([[rng.randint(1, 50) for _ in range(k.sims)] for _ in range(slen)], dtype=np.float32)
+        k.extra = {}
+        for lane in range(k.sims):
+            ts = sorted(rng.sample(range(5, 60), 4))
+            for j in range(4):      # four staggered single transitions into the parity stage: more transitions on x than capacity 4 holds
+                k.extra[(j, lane)] = ([] if rng.random() < 0.5 else ['MinInf']) + [ts[j]] + ['MaxInf']
+        try:
+            w = wk.run_case(k)
+            what = oracle(k, w)
+        except Exception as e:
+            what = f'raises {type(e).__name__}: {e}'
+        ck.count(k.sims, 'overflow-on-one-operand')
+        ck.nontrivial(('ovfpin', kind, pin))
+        if what:
+            fails.append((wk.describe(k), f'overflow mark on operand {pin} of {kind}: ' + what))
+    return fails
+
+
 def run(ck):
     if THEOREMS:
         ck.prove('C13', THEOREMS)
     fails, mism = wk.campaign(ck, ck.scale(40, 1200), oracle, gen_kw={'with_actrl': True, 'allow_dangling': False, 'strip_prob': 0.3}, coq_lanes=1, coq_every=2, stress_every=3, line_level=True, glue=True)
     ck.rule('random circuits x delays x capacities (incl. overflowing) x capture times (incl. ties with entries) x accumulation-control '
             'tables (shared accumulators, weights 0..3); oracle: recount from the stored waveforms (CPU and GPU capture), rerun with capacity 64')
+    fails = ovf_pin_stress(ck, ck.scale(54, 540)) + fails
     wk.report(ck, fails, mism, 'wavesim:capture', 'wave_sim.WaveSim capture/abuf')
 
 
